@@ -14,8 +14,9 @@ OP_KEYS = {"id", "state", "is_assignable_state", "parents_complete"}
 
 class Peer:
     """the external scheduler: a naive policy (transcription of go/naive) that may also suspend a suspendable batch container"""
-    def __init__(self, rng, suspend_prob, multi=False, retry=False, parents=None, frac=False, over=False, escalate=None):
+    def __init__(self, rng, suspend_prob, multi=False, retry=False, parents=None, frac=False, over=False, escalate=None, pack=False):
         self.rng, self.suspend_prob, self.multi = rng, suspend_prob, multi
+        self.pack = pack          # also admissible: many small containers (1 CPU, 4 GB) per pool and call, so that a pool runs several side by side
         self.erng = escalate      # also admissible: ask for a container priority other than the pipeline's (its own random stream, or None)
         self.frac = frac          # also admissible: ask for fractional CPUs / GB (binary fractions, so nothing is lost in JSON)
         self.over = over          # memory overcommit is on: one CPU and the pool's whole RAM per container, like overbook -> free RAM goes negative
@@ -35,6 +36,8 @@ class Peer:
             want_cpu, want_ram = pool["avail_cpu"], pool["avail_ram_gb"]
             if self.over:
                 want_cpu, want_ram = min(2, pool["avail_cpu"]), pool["max_ram_gb"]
+            elif self.pack:
+                want_cpu, want_ram = 1, min(4, pool["avail_ram_gb"])
             elif self.frac and want_cpu > 1 and want_ram > 1:
                 want_cpu, want_ram = want_cpu - self.rng.choice([0.5, 0.25, 1.5 if want_cpu > 2 else 0.5]), want_ram - self.rng.choice([0.5, 0.75, 3.5 if want_ram > 4 else 0.5])
                 self.fractional = getattr(self, "fractional", 0) + 1
@@ -64,12 +67,19 @@ class Peer:
                     chosen = self.some_order(p, chosen)
                 asg.append({"operator_ids": chosen, "cpu": want_cpu, "ram_gb": want_ram, "priority": self.prio_for(p),
                             "pool_id": pool["pool_id"], "is_resume": False, "force_run": False})
+                if self.pack:
+                    given = sum(1 for a in asg if a["pool_id"] == pool["pool_id"])
+                    if given < pool["avail_cpu"] and 4 * (given + 1) <= pool["avail_ram_gb"]:
+                        continue
                 break
         if self.executor is not None and self.rng.random() < self.suspend_prob:
             for pool in self.executor.pools:
                 for c in pool.active_containers:
-                    if c.can_suspend_container() and not sus:
+                    # one suspension per reply, or (in the runs with the second random stream) every suspendable container -- several of one pool included
+                    if c.can_suspend_container() and (not sus or self.erng is not None):
                         sus.append({"container_id": c.container_id, "pool_id": pool.pool_id})
+                        if len(sus) > 1 and sus[-1]["pool_id"] == sus[-2]["pool_id"]:
+                            self.same_pool_sus = getattr(self, "same_pool_sus", 0) + 1
         return {"suspensions": sus, "assignments": asg}
 
     def prio_for(self, p):
@@ -218,6 +228,15 @@ def one_run(ctx, drv, rng):
         # directed: the peer is called every tick and suspends whatever is suspendable (multi-operator containers at an operator boundary),
         # on pool 0 as well as on the others
         multi, sus_prob, poll = True, 0.9, F(1, tps)
+    pack = heavy and rng.random() < 0.5
+    chorus = None
+    if pack:
+        # directed: identical three-operator chains arriving together on one pool of eight CPUs: they start side by side, reach every operator boundary in the
+        # same tick, and the peer's reply then suspends several containers of the same pool at once
+        k, n = rng.randint(1, 3), rng.randint(2, 4)
+        chorus = {"pipes": [{"prio": rng.choice([2, 3]), "ops": [{"parents": [], "ticks": k, "mem": 1, "read": 0}, {"parents": [0], "ticks": k + 1, "mem": 1, "read": 0},
+                                                                  {"parents": [1], "ticks": k, "mem": 1, "read": 0}]} for _ in range(n)],
+                  "arrivals": [list(range(n))], "tps": tps}
     twins = (not heavy) and rng.random() < 0.3
     dag = (not heavy) and (not twins) and rng.random() < 0.5
     directed = dag and rng.random() < 0.4
@@ -229,7 +248,7 @@ def one_run(ctx, drv, rng):
     over = (not heavy) and (not directed) and rng.random() < 0.25
     esc = random.Random(tps * 8 + 4 * int(bool(multi)) + 2 * int(bool(over)) + int(bool(dag)))
     peer = Peer(rng, sus_prob, multi, retry=directed or (dag and rng.random() < 0.6), frac=rng.random() < 0.4, over=over,
-                escalate=esc if esc.random() < 0.6 else None, parents={f"d{k}": [o["parents"] for o in p["ops"]] for k, p in enumerate(spec["pipes"])} if dag else None)
+                escalate=(esc if esc.random() < 0.6 or pack else None), pack=pack, parents={f"d{k}": [o["parents"] for o in p["ops"]] for k, p in enumerate(spec["pipes"])} if dag else None)
     srv = serve(peer)
     params = {"duration": rng.choice([20, 40]), "ticks_per_second": tps, "waiting_seconds_mean": rng.choice([0.5, 2.0, 6.0]),
               "num_pipelines": rng.randint(1, 3), "num_operators": 4 if heavy else rng.choice([2, 4]), "num_pools": rng.choice([1, 2, 3]), "cpus_per_pool": 8,
@@ -239,6 +258,8 @@ def one_run(ctx, drv, rng):
         params["allow_memory_overcommit"] = True
     if dag:
         params.update({"ram_gb_per_pool": 64, "num_pools": rng.choice([2, 2, 3]), "duration": rng.choice([20, 30]), "rest_poll_interval": float(poll)})
+    if chorus:
+        params.update({"num_pools": 1, "ram_gb_per_pool": 64, "duration": 20})
     if twins:
         # directed: identical (query) pipelines arriving together on several pools finish in the same tick, i.e. between the same two calls
         params.update({"query_prob": 1.0, "interactive_prob": 0.0, "batch_prob": 0.0, "num_pipelines": rng.randint(2, 3), "num_pools": rng.choice([2, 3]),
@@ -251,6 +272,8 @@ def one_run(ctx, drv, rng):
         peer.executor = self
     Executor.__init__ = spy_init
     try:
+        if chorus:
+            spec, dag = chorus, True
         stats, rec = layer_m.run_recorded(params, "rest", det_run.fixed_workload(spec) if dag else None)
     except Exception as e:
         return viol(ctx, "raised", f"the run driven over HTTP raised {type(e).__name__}: {e}", {"params": params})
@@ -344,6 +367,7 @@ def one_run(ctx, drv, rng):
     ctx.sit("assignments_with_fractional_cpu_or_ram", getattr(peer, "fractional", 0))
     ctx.sit("failed_operators_retried", getattr(peer, "retried", 0))
     ctx.sit("containers_given_another_priority_than_their_pipeline", getattr(peer, "escalated", 0))
+    ctx.sit("replies_suspending_several_containers_of_one_pool", getattr(peer, "same_pool_sus", 0))
     ctx.sit("containers_given_in_a_non_pipeline_order", getattr(peer, "reordered", 0))
     ctx.sit("assignments_issued_by_peer", sum(len(r["assignments"]) for _, r, _ in peer.calls))
     ctx.sit("pipelines_reported_complete", sum(1 for c in got for _, f in c["other"] if f))
